@@ -18,8 +18,16 @@ from vplib import *
 import lmmm
 from lmmm import *
 
-OCAML = lmmm.OCAML
-HARNESS = [("lang", ["lmmm_run", "rustgen_run"], True)]
+import importlib.util as _ilu0, sys as _sys0
+if os.path.join(VERIF, "checks") not in _sys0.path:
+    _sys0.path.insert(0, os.path.join(VERIF, "checks"))
+def _load_part(name):
+    sp = _ilu0.spec_from_file_location("part_" + name, os.path.join(VERIF, "checks", name + ".py"))
+    m = _ilu0.module_from_spec(sp); sp.loader.exec_module(m)
+    return m
+rtpl_part = _load_part("rtpl_part")
+OCAML = lmmm.OCAML + rtpl_part.OCAML
+HARNESS = [("lang", ["lmmm_run", "rustgen_run"], True)] + rtpl_part.HARNESS
 SCRATCH = os.path.join(CACHE, "rustgen")
 FIXDIR = os.path.join(REPO, "crates/lib/mimium-test/tests/mmm")
 TEMPLATE = os.path.join(REPO, "crates/lib/mimium-lang/src/compiler/mimium_placeholder.rs.template")
@@ -1280,6 +1288,9 @@ def run(ck):
             prim_fails = pt[1]
     for what, rp in prim_fails[:3]:
         ck.violation(what, rp)
+    # ---- the runtime of generated Rust as the third implementation of the runtime-primitive contract (Props/C18_rt.v, checks/rtpl_part.py)
+    for what, rp in rtpl_part.run_part(ck, quick)[:6]:
+        ck.violation(what, {k: v for k, v in rp.items() if k != "no_input"}, no_input=bool(rp.get("no_input")))
     n_gen, n_samples = (450, 16) if quick else (8000, 48)
     n_x = 450 if quick else 8000
     findings = {f["id"]: f for f in known_findings("C18")}
